@@ -1352,10 +1352,14 @@ package websocket
 // The deflate stream's final sync marker (00 00 ff ff) is what truncWriter
 // still holds when the message is closed; it is checked and never forwarded.
 //@ func (*flateWriteWrapper).Close
-//@ tags C02
+//@ tags C02 C10
 //@ nosafety
 //@ assert at call:Close#1[C02.tail.check]: w.tw.p[0] == 0 && w.tw.p[1] == 0 && w.tw.p[2] == 255 && w.tw.p[3] == 255 && arg0 == w.tw.w
 //@ ensures[C02.tail.check] w.fw == nil
+//@ bind e1 after call:Flush#1
+//@ bind e2 after call:Close#1
+//@ assert at return#3[C02+C10.closeerr]: e1 != nil && result == e1
+//@ assert at return#4[C02+C10.closeerr]: e1 == nil && result == e2
 
 // prepared.go: the fake connection that renders a prepared frame obeys the
 // io.Writer rules the writer relies on: every Write is copied into the
